@@ -1,16 +1,19 @@
 (* C05_GenRun: call sequences executed with the functions generated from the CURRENT
-   EventLoopThreadPool.cc (Gen_C05).  Definitions only (extracted; must build when a proof breaks). *)
-From Coq Require Import List.
+   EventLoopThreadPool.cc (Gen_C05; C integer semantics over Z).  Definitions only (extracted; must
+   build when a proof breaks). *)
+From Coq Require Import List ZArith.
 Import ListNotations.
 From Muduo Require Import C05_Model Gen_C05.
 
-Fixpoint gen_pool_run (n next : nat) (ops : list pop) : list (option nat) * nat :=
+(* n = loops_.size(), next = next_ (an int), hash codes are size_t values *)
+Fixpoint gen_pool_run (n next : Z) (ops : list pop) : list (option Z) * Z :=
   match ops with
   | [] => ([], next)
   | PNext :: r =>
       let '(x, next') := gen_get_next n next in
       let '(xs, fin) := gen_pool_run n next' r in (x :: xs, fin)
   | PHash h :: r =>
-      let '(x, next') := gen_get_hash n next h in
+      let '(x, next') := gen_get_hash n next (Z.of_nat h) in
       let '(xs, fin) := gen_pool_run n next' r in (x :: xs, fin)
   end.
+
